@@ -7,6 +7,7 @@ import random
 import progprop
 import progstream as P
 from gen import mutants
+from gen.programs import INT, BOOL, STR, FLOAT, VOID, tup, fn, iter_of, arr, cell, multi
 from props import c07, c01, c06, c11, c12, c13
 
 THM_MODULES = ["SslModel.Thm.C02"]
@@ -24,7 +25,8 @@ def negative_stream(res, rnd, tier, seed, prop):
     else:
         muts = [("template", t) for t in mutants.narrowing_templates()] + \
             [("assign-template", t) for t in mutants.assignment_templates()] + \
-            [("union-operand-template", t) for t in mutants.union_operand_templates()] + mutants.mutants(rnd, base, 2)
+            [("union-operand-template", t) for t in mutants.union_operand_templates()] + \
+            [("union-call-template", t) for t in mutants.union_call_templates()] + mutants.mutants(rnd, base, 2)
     recs = P.run_programs([m for _, m in muts], broken_model=True)
     res.streams["negative"] = dict(programs=len(muts))
     acc = 0
@@ -57,11 +59,39 @@ def negative_stream(res, rnd, tier, seed, prop):
     res.count("negative:accepted-anyway", acc)
 
 
+def never_function_templates():
+    """a function that never returns (`() -> !`) matches every function type: handed over as an iterator, a callback or a
+    plain function it must be usable wherever that type is - creating (not pulling) every derived iterator included
+    (F26, F27: `@`, `? f`, `? T` parsed their helpers against the run-time type)"""
+    I = lambda n: ("i", n)
+    V = lambda x: ("id", x)
+    G = ("fndecl", "g", [], ("never",), [("return", ("call", V("g"), []))])
+    G1 = ("fndecl", "g1", [("v", INT)], ("never",), [("return", ("call", V("g1"), [V("v")]))])
+    IT = iter_of(multi(INT, STR))
+    inc = ("fn", [("v", multi(INT, STR))], INT, [("return", I(1))])
+    pos = ("fn", [("v", multi(INT, STR))], BOOL, [("return", ("true",))])
+    T = []
+    for e in (("bin", "map", V("it"), inc), ("bin", "filter", V("it"), pos), ("tfilter", V("it"), INT), ("tfilter", V("it"), multi(INT, STR)),
+              ("bin", "map", ("bin", "filter", V("it"), pos), inc), ("tfilter", ("bin", "map", V("it"), inc), INT)):
+        T.append([G, ("fndecl", "f", [("it", IT)], ("any",), [("set", "x", e), ("return", I(1))]), ("call", V("f"), [V("g")])])
+        T.append([G, ("set", "it", V("g")), ("set", "x", e), I(2)])
+    # as a callback: created, never called because the source is empty
+    src0 = ("post", "iter", ("repeat", I(0), I(0)))
+    for rt, e in ((INT, ("post", "collect", ("bin", "map", src0, V("cb")))), (BOOL, ("post", "collect", ("bin", "filter", src0, V("cb")))),
+                  (BOOL, ("bin", "partition", src0, V("cb"))), (INT, ("post", "sum", ("bin", "map", src0, V("cb")))),
+                  (BOOL, ("post", "all", ("bin", "map", src0, V("cb"))))):
+        T.append([G1, ("fndecl", "f", [("cb", fn((INT,), rt))], ("any",), [("return", e)]), ("call", V("f"), [V("g1")])])
+    # destructuring / conditions on a diverging expression inside a function that is never called
+    T.append([G, ("fndecl", "h", [], INT, [("destruct", ["a", "b"], ("call", V("g"), [])), ("return", ("bin", "add", V("a"), V("b")))]), I(3)])
+    T.append([G, ("fndecl", "h", [], INT, [("if", ("call", V("g"), []), ("block", [("return", I(1))]), None), ("return", I(2))]), I(3)])
+    return T
+
+
 def run(res, tier, seed, broken_model):
     rnd = random.Random(seed + 7)
     feats = dict(mark=0.1, weights=dict(useriter=16, fndecl=14, capture=8))
     recs, good = progprop.stream(res, tier, seed + 7, broken_model, 700, 25000, features=feats,
-                                 templates=c06.templates() + c12.templates()[::3] + c11.repeated_templates()[::4] + c07.templates()[::5], label="programs", depth=3)
+                                 templates=never_function_templates() + c06.templates() + c12.templates()[::3] + c11.repeated_templates()[::4] + c07.templates()[::5], label="programs", depth=3)
     n = 200 if tier == "quick" else 6000
     pipes = [c11.Pipe(rnd).build() for _ in range(n)] + [c13.history(rnd, rnd.randint(3, 20)) for _ in range(n // 2)]
     precs = P.run_programs(pipes, broken_model=broken_model)
